@@ -236,8 +236,33 @@ def specLines (raw : List (Bytes × String)) (id : String) (ops : List Op) : Lis
   s!"spec {id} pn={showPn (tbl.map fun e => (e.1, e.2.1))}" ::
     (perProj ++ (if alls.isEmpty || !hasResidue then [] else [s!"spec {id} ll={showNats ll}"]))
 
-/-- All lines of the driver for one case line. -/
+/-- The strict-total-order clause (`C09.less_strict_total`, `key_less_strict_total`) judged on the
+implementation's `Key.Less` matrix over distinct keys: echo the matrix if it is irreflexive,
+asymmetric, total and transitive, name a violating pair/triple otherwise. -/
+def judgeSto (m : String) : String :=
+  if m == "-" then m else
+  let rows := (m.splitOn ".").map fun r => r.toList.map (· == '1')
+  let n := rows.length
+  let at_ := fun (i j : Nat) => (rows.getD i []).getD j false
+  let idx := List.range n
+  let bad : Option String :=
+    (idx.findSome? fun i => if at_ i i then some s!"irreflexive({i})" else none) <|>
+    (idx.findSome? fun i => idx.findSome? fun j =>
+      if i < j && at_ i j && at_ j i then some s!"asymmetric({i},{j})"
+      else if i < j && !at_ i j && !at_ j i then some s!"total({i},{j})" else none) <|>
+    (idx.findSome? fun i => idx.findSome? fun j => idx.findSome? fun k =>
+      if at_ i j && at_ j k && !at_ i k then some s!"transitive({i},{j},{k})" else none)
+  match bad with
+  | some b => "VIOLATED:" ++ b
+  | none => m
+
+/-- All lines of the driver for one line of the harness output. -/
 def handle (l : Line) : List String :=
+  if l.kind == "sobs" then
+    match l.get? "sto" with
+    | some m => [s!"spec {l.id} p={l.getD "p" "0"} sto={judgeSto m}"]
+    | none => []
+  else
   if l.kind != "case" then [] else
   let ops := decOps (l.getD "ops" "-")
   let pn := pnOf (decPn (l.getD "pn" "-"))
